@@ -10,7 +10,7 @@ import datetime
 from enum import IntFlag
 import io
 import json
-from typing import Any, Generic, Optional, TextIO, TypeVar, Union, cast
+from typing import Any, Generic, Optional, TextIO, TypeVar, Union, cast, get_origin
 
 import numpy as np
 import numpy.typing as npt
@@ -786,7 +786,9 @@ class UnionConverter(JsonConverter[T, np.object_]):
         simple: bool,
     ) -> None:
         super().__init__(np.object_)
-        self._union_type = union_type
+        # An alias of a generic union can be a subscripted generic (U = T1OrString[T1]),
+        # which cannot be used in instance checks
+        self._union_type = get_origin(union_type) or union_type
         self._cases = cases
         self._simple = simple
         self._offset = 1 if cases[0] is None else 0
